@@ -32,10 +32,12 @@ TRUSTED = ["hand model lean/AwsVerif/Model/Cbor.lean of source/cbor.c + libcbor 
            "independent RFC 8949 reader lib/cbor_ref.py (direct oracle)",
            "x86-64/gcc semantics of (float)double, (double)float for NaN (quieting) and of (int64_t)2^63 (INT64_MIN), confirmed by the W stream"]
 ASSUMPTIONS = ["string lengths and container counts < 2^64 (size_t); allocation never fails (aws_mem_acquire aborts otherwise)",
-               "generated nesting depth <= 64: aws_cbor_decoder_consume_next_whole_data_item recurses once per nesting level with no "
-               "limit (about 200000 nested 0x81 overflow the C stack) - known issue, not exercised by this check",
+               "generated nesting depth <= 5000 in the quick tier and <= 20000 in the thorough tier: "
+               "aws_cbor_decoder_consume_next_whole_data_item recurses once per nesting level with no limit (known finding F6: tens of "
+               "thousands of nested heads overflow the C stack) - the check stays below that threshold and claims nothing beyond it",
                "half-precision floats are never written by the encoder (decoder side of them is conformance-tested only)"]
-RULE = ("item sequences (flattened random data-item trees to depth 64 + flat sequences) with boundary-biased operands: every head width "
+RULE = ("item sequences (flattened random data-item trees to depth 64, deterministic chains nested 65..5000 deep (20000 in thorough) "
+        "of every container kind, + flat sequences) with boundary-biased operands: every head width "
         "boundary, doubles around 0 / subnormals / binary32 limits / +-2^63 / FLT_MAX / inf / NaN payloads, string lengths across the "
         "encoder's buffer growth points; encoded, decoded (decode_all), skipped (consume) and stepped (peek/pop/skip); plus a malformed "
         "raw-byte stream for the decoder. non-trivial = at least two encoder items or a raw input of >= 2 bytes")
@@ -598,6 +600,40 @@ def tail_cases():
     return out
 
 
+DEEP_SHAPES = ("arr", "map", "tag", "indef_arr", "indef_map", "mixed")
+
+
+def deep_cases(depths):
+    """one data item nested `d` levels deep (definite arrays, maps, tags, indefinite arrays / maps, a rotation of all five),
+    followed by a sentinel: decoded element by element, skipped in ONE consume call (which must stop exactly in front of
+    the sentinel), and skipped from one level inside.  Depths stay far below the unbounded-recursion finding (F6, tens of
+    thousands of levels)."""
+    out = []
+    for d in depths:
+        for shape in DEEP_SHAPES:
+            ops, closers = [], []
+            for lvl in range(d):
+                k = shape if shape != "mixed" else ("arr", "map", "tag", "indef_arr", "indef_map")[lvl % 5]
+                if k == "arr":
+                    ops.append("arr 1")
+                elif k == "map":
+                    ops += ["map 1", f"u {lvl % 24}"]
+                elif k == "tag":
+                    ops.append(f"tag {TAG_VALUES[lvl % len(TAG_VALUES)]}")
+                elif k == "indef_arr":
+                    ops.append("indef_arr"); closers.append("brk")
+                else:
+                    ops += ["indef_map", "text 6b"]; closers.append("brk")
+            ops.append("f 3ff8000000000000")
+            ops += list(reversed(closers))
+            ops += ["u 7", "enc", "decode_all",
+                    "load", "consume", "rem", "consume", "rem", "consume",      # whole item in one call, then the sentinel, then nothing
+                    "load", "peek", "consume", "rem",                           # with the head already cached
+                    "load", "skip", "consume", "rem", "all"]                    # from one level inside
+            out.append(Case(ops, {"kind": "deep", "depth": d, "shape": shape}))
+    return out
+
+
 def case_bigstr(rng):
     n = rng.choice([65535, 65536, 65537, 131072])
     ops = [f"textr 61 {n}", "u 1", f"bytesr 00 {n - rng.randint(0, 2)}", "enc", "decode_all", "load", "consume", "consume", "consume", "rem"]
@@ -729,6 +765,8 @@ def gen_cases(rng, tier):
     cases += huge_cases(tier)
     cases += wide_cases(rng, [22, 23, 24, 25, 255, 256, 257] if q else [22, 23, 24, 25, 254, 255, 256, 257, 1000, 4000])
     cases += tail_cases()
+    cases += deep_cases([65, 100, 127, 128, 129, 200, 1000, 5000] if q else
+                        [64, 65, 100, 126, 127, 128, 129, 130, 200, 255, 256, 257, 1000, 2000, 5000, 10000, 20000])
     for _ in range(40 if q else 1500):
         cases.append(case_growth_edge(rng))
     for _ in range(3 if q else 40):
@@ -1146,7 +1184,7 @@ def distribution(cases, c_out):
             if t in ("arr", "map", "tag", "indef_arr", "indef_map", "indef_bytes", "indef_text"):
                 depth += 1
                 mx = max(mx, depth)
-        d["max_nesting"] = max(d["max_nesting"], min(mx, 64))
+        d["max_nesting"] = max(d["max_nesting"], c.tags.get("depth", min(mx, 64)))
         for l in c_out.get(i, []):
             if l.startswith("W enc ") and l[6:] != "-":
                 try:
@@ -1182,6 +1220,6 @@ MANIFEST = dict(
           "and a malformed-input stream for the decoder."),
     note=("Trusted: Lean kernel; hand-written model Model/Cbor.lean (tied by correspondence only); harness; lib/cbor_ref.py; x86-64 "
           "float cast behaviour. Unbounded recursion of consume_next_whole_data_item on deeply nested input (known issue) is outside "
-          "the check: nesting <= 64."),
+          "the check: generated nesting stays <= 5000 (quick) / 20000 (thorough), below the F6 threshold."),
     technique="Lean 4 proofs by induction over item sequences / data-item trees + model/implementation differential run + independent reference decoder",
 )
